@@ -908,10 +908,13 @@ class StandardHamiltonian(EnergyOperator):
         self._prior_sampling_dtype = prior_sampling_dtype
         self._ic_samp = ic_samp
         self._domain = lh.domain
+        self._cst_prior_energy = 0.  # prior energy of inputs that have been fixed to constants
 
     def apply(self, x):
         self._check_input(x)
         lhx, prx = self._lh(x), self._prior(x)
+        if self._cst_prior_energy != 0.:
+            prx = prx + self._cst_prior_energy
         if not x.want_metric or self._ic_samp is None:
             return lhx + prx
         met = SamplingEnabler(lhx.metric, prx.metric, self._ic_samp)
@@ -942,7 +945,9 @@ class StandardHamiltonian(EnergyOperator):
                 psdt = {kk: vv for kk, vv in psdt.items() if kk in lh1.domain.keys()}
             else:
                 psdt = {kk: psdt for kk in lh1.domain.keys()}
-        return out, StandardHamiltonian(lh1, self._ic_samp, psdt)
+        res = StandardHamiltonian(lh1, self._ic_samp, psdt)
+        res._cst_prior_energy = self._cst_prior_energy + float(0.5*c_inp.s_vdot(c_inp).real)
+        return out, res
 
 
 class AveragedEnergy(EnergyOperator):
